@@ -93,6 +93,7 @@ type Path struct {
 	stubs    map[string]bool
 	ufApps   map[string][]*term.T
 	pending  [][]Decision // alternative traces discovered on this path
+	decided  map[*term.T]bool
 	extra    map[string]interface{}
 }
 
@@ -134,6 +135,7 @@ func (p *Path) addPC(c *term.T) {
 		return
 	}
 	p.pc = append(p.pc, c)
+	p.note(c)
 	p.S.Assert(p.F, c)
 }
 
@@ -172,12 +174,23 @@ func (p *Path) check(extra *term.T, want []*term.T) (smt.Result, []*big.Int) {
 }
 
 // fork decides a boolean condition, exploring both sides where feasible.
-func (p *Path) fork(c *term.T) bool {
+func (p *Path) fork(c *term.T) bool { return p.forkHint(c, false) }
+
+// forkLikely is fork for conditions expected to hold (assertions, run-time
+// checks): the failing side is tested first, so a passing check costs one query.
+func (p *Path) forkLikely(c *term.T) bool { return p.forkHint(c, true) }
+
+func (p *Path) forkHint(c *term.T, likely bool) bool {
 	if c.IsTrue() {
 		return true
 	}
 	if c.IsFalse() {
 		return false
+	}
+	// facts already on the path condition (or their negations) need no query;
+	// the cache depends only on the decisions taken, so replays stay aligned
+	if v, ok := p.decided[c]; ok {
+		return v
 	}
 	nc := p.F.Not(c)
 	if p.pos < len(p.trace) {
@@ -195,19 +208,35 @@ func (p *Path) fork(c *term.T) bool {
 	if p.forks > p.H.MaxDepth {
 		p.end("budget", "more than %d symbolic decisions on one path (unwinding bound)", p.H.MaxDepth)
 	}
-	// every symbolic decision is recorded (also one-sided ones) so that a
+	// every queried decision is recorded (also one-sided ones) so that a
 	// replayed prefix lines up with the decisions met on re-execution
-	rt, _ := p.check(c, nil)
-	if rt == smt.Unsat {
-		p.newTrace = append(p.newTrace, Decision{Taken: false, Forced: true})
-		p.addPC(nc) // implied, but a useful lemma for later queries
-		return false
-	}
-	rf, _ := p.check(nc, nil)
-	if rf == smt.Unsat {
-		p.newTrace = append(p.newTrace, Decision{Taken: true, Forced: true})
-		p.addPC(c)
-		return true
+	var rt, rf smt.Result
+	if likely {
+		rf, _ = p.check(nc, nil)
+		if rf == smt.Unsat {
+			p.newTrace = append(p.newTrace, Decision{Taken: true, Forced: true})
+			p.addPC(c) // implied, but a useful lemma for later queries
+			return true
+		}
+		rt, _ = p.check(c, nil)
+		if rt == smt.Unsat {
+			p.newTrace = append(p.newTrace, Decision{Taken: false, Forced: true})
+			p.addPC(nc)
+			return false
+		}
+	} else {
+		rt, _ = p.check(c, nil)
+		if rt == smt.Unsat {
+			p.newTrace = append(p.newTrace, Decision{Taken: false, Forced: true})
+			p.addPC(nc)
+			return false
+		}
+		rf, _ = p.check(nc, nil)
+		if rf == smt.Unsat {
+			p.newTrace = append(p.newTrace, Decision{Taken: true, Forced: true})
+			p.addPC(c)
+			return true
+		}
 	}
 	if rt == smt.Unknown || rf == smt.Unknown {
 		p.tainted = true
@@ -217,6 +246,23 @@ func (p *Path) fork(c *term.T) bool {
 	p.newTrace = append(p.newTrace, Decision{Taken: true})
 	p.addPC(c)
 	return true
+}
+
+// note records that c holds on this path (and its conjuncts).
+func (p *Path) note(c *term.T) {
+	if _, ok := p.decided[c]; ok {
+		return
+	}
+	p.decided[c] = true
+	p.decided[p.F.Not(c)] = false
+	if c.Op == term.OAnd {
+		p.note(c.Args[0])
+		p.note(c.Args[1])
+	}
+	if c.Op == term.ONot && c.Args[0].Op == term.OOr {
+		p.note(p.F.Not(c.Args[0].Args[0]))
+		p.note(p.F.Not(c.Args[0].Args[1]))
+	}
 }
 
 // assume adds c to the path condition, ending the path if infeasible.
